@@ -83,6 +83,18 @@ D1(d) == LET S == Types(d) IN
   \cup {Desc("a.b", <<TaDecl, MMethod("M", Struct(<<>>), Struct(<<F("x", t), F("y", Leaf("bool"))>>))>>) : t \in S}
   \* ... and not only as the first field of its list
   \cup {Desc("a.b", <<TaDecl, MMethod("M", Struct(<<>>), Struct(<<>>)), MError("E", <<Struct(<<F("w", Leaf("string")), F("x", t), F("z", Leaf("int"))>>)>>)>>) : t \in S}
+(* D3: deep nesting - one constructor (or a mix) applied n times, far beyond what the depth-bounded enumeration reaches. *)
+(* (TLC's JSON reader stops at 255 nested values: 2 per array / map / optional, 4 per struct level - hence the sizes)     *)
+RECURSIVE Chain(_, _)
+Chain(k, n) == IF n = 0 THEN Leaf("int")
+               ELSE CASE k = "array"  -> Arr(Chain(k, n - 1))
+                      [] k = "map"    -> Map(Chain(k, n - 1))
+                      [] k = "optarr" -> IF n % 2 = 0 THEN Maybe(Chain(k, n - 1)) ELSE Arr(Chain(k, n - 1))
+                      [] k = "struct" -> Struct(<<F("a", Chain(k, n - 1))>>)
+                      [] k = "mixed"  -> IF n % 3 = 0 THEN Maybe(Arr(Chain(k, n - 1))) ELSE IF n % 3 = 1 THEN Map(Chain(k, n - 1)) ELSE Struct(<<F("a", Chain(k, n - 1)), F("b", Leaf("bool"))>>)
+D3 == {Desc("a.b", <<MMethod("M", Struct(<<F("x", Chain(k[1], k[2]))>>), Struct(<<>>))>>) :
+          k \in {<<"array", 100>>, <<"map", 100>>, <<"optarr", 100>>, <<"struct", 40>>, <<"mixed", 36>>}}
+      \cup {Desc("a.b", <<MType("T", Chain("optarr", 90)), MMethod("M", Struct(<<>>), Struct(<<>>))>>)}
 (* D2: member orders, interface names, typeless errors *)
 D2 == LET Ms == {MType("T", Leaf("int")), MMethod("M", Struct(<<F("a", Leaf("int"))>>), Struct(<<>>)),
                  MMethod("N", Struct(<<>>), Struct(<<F("r", Alias("T"))>>)), MError("E", <<>>), MError("F", <<Struct(<<F("c", Leaf("string"))>>)>>)} IN
@@ -95,7 +107,7 @@ D2 == LET Ms == {MType("T", Leaf("int")), MMethod("M", Struct(<<F("a", Leaf("int
 (* --- edits (C06) ----------------------------------------------------------- *)
 (* names with a non-ASCII letter; never well-formed.  The driver concretises U1 as U+00EA (UTF-8 C3 AA: both bytes *)
 (* are letters when read as Latin-1) and U4 as the single byte E9 (Latin-1, not valid UTF-8)                     *)
-NonAscii == {"aU1", "TU1", "aU4"}
+NonAscii == {"aU1", "TU1", "aU4", "U5"}      \* U5: a byte order mark (EF BB BF) as a token of its own
 Alphabet == {"interface", "type", "method", "error", "(", ")", ",", ":", "->", "?", "[", "]", "string", "int", "a", "T", "x.y", "9", "-"} \cup NonAscii
 (* one edit, addressed by (kind, position, replacement); out-of-range addresses give s itself *)
 EditAt(s, kind, i, x) ==
